@@ -252,6 +252,10 @@ class PythonCryptoEndpoint(CryptoEndpoint, EndpointListener):
             self.logger.debug("Got encrypted cell from unknown circuit %d", circuit_id)
             return None
 
+        if circuit and not exit_socket and not circuit.hops and not cell.plaintext:
+            self.logger.debug("Got encrypted cell for circuit %d, which has no hops yet", circuit_id)
+            return None
+
         try:
             if exit_socket:
                 self.decrypt_cell(cell, FORWARD, exit_socket.hop)
